@@ -2526,10 +2526,8 @@ class Trion:
                     viol.append("PFD %s Hz outside declared range" % float(pfd))
                 if not (d["vco"][0] * (1 - SLACK) <= vco <= d["vco"][1] * (1 + SLACK)):
                     viol.append("VCO %s Hz outside declared range" % float(vco))
-                if fpll > d["pll"][1] * (1 + SLACK):
-                    region = "C20-trion-fpll-max-unchecked"      # reported finding: `clk_fb_freq > pll_max` lacks `* c`
-                elif fpll < d["pll"][0] * (1 - SLACK):
-                    viol.append("PLL output frequency %s Hz (before the C dividers) below the declared minimum" % float(fpll))
+                if not (d["pll"][0] * (1 - SLACK) <= fpll <= d["pll"][1] * (1 + SLACK)):
+                    viol.append("PLL output frequency %s Hz (before the C dividers) outside declared range" % float(fpll))
                 if M * O * cfb > 255:
                     viol.append("M*O*Cfbk = %d > 255" % (M * O * cfb))
                 if not rel_close(vco, real["vco"], tol):
